@@ -561,7 +561,10 @@ class Interpreter:
                         x = cur[(a + v + i) % len(cur)]
                         ps.append(as_arg(x) if v % 2 else x)
                     else:
-                        x = [U.pick("pin", a + v), _pick(outers, a + v), U.pick("proxy", a + v)][v % 3]
+                        stale = [p_ for p_ in U.outer_seen.values()
+                                 if p_.instance is None or p_.inner_pin is None]
+                        x = [U.pick("pin", a + v), _pick(outers, a + v), U.pick("proxy", a + v),
+                             _pick(stale, a + v)][v % 4]
                         if x is not None:
                             ps.append(x)
                 arg = bulk_arg(ps, mode)
@@ -787,7 +790,7 @@ def op_strategy(weights, names=NAMES, keys=KEYS, own_bias=3, odd_positions=False
         "perm": st.lists(st.integers(0, 5), min_size=1, max_size=4),
         "mode": st.integers(0, 11),
         "key": st.sampled_from(keys),
-        "val": st.one_of(st.integers(0, 3), st.sampled_from(["v", "w"]),
+        "val": st.one_of(st.integers(0, 3), st.sampled_from(["v", "w"]), st.none(),
                          st.lists(st.integers(0, 2), max_size=2)),
     })
 
